@@ -188,7 +188,7 @@ def run(rep: common.Report, tier: str, seed: int):
             bare = 2
         text, raised, dwell = run_impl(cfgd, mat, bare)
         cases.append({'stream': stream, 'cfg': cfgd, 'matrix': np.asarray(mat).tolist(), 'dtype': str(np.asarray(mat).dtype),
-                      'bare': bare, 'built_by': descr})
+                      'bare': bare, 'built_by': descr, 'raised': raised})
         lits.append(case_literal(cfgd, mat, bare, text, raised, dwell))
         hist['streams'][stream] = hist['streams'].get(stream, 0) + 1
         n = np.asarray(mat).shape[1]
@@ -204,7 +204,12 @@ def run(rep: common.Report, tier: str, seed: int):
     for idx, code in fails:
         which = [names[k] for k in range(len(names)) if code >> k & 1]
         c = cases[idx]
-        if 'replay' in which:
+        if c.get('raised') and c['bare'] and 'tokens' in which and 'exception' not in which:
+            # write() refused the path (both sides raise) but femto's program is not what it was before the call: the theorem's
+            # first disjunct (a refused write emits nothing) fails on this input
+            rep.violation('C01/partial-emission-on-refusal/' + c['stream'],
+                          'write() raised on a refused value but had already emitted part of the path', {'input': c, 'failed': which})
+        elif 'replay' in which:
             rep.violation('C01/replay/' + c['stream'], 'the emitted program does not replay the point matrix', {'input': c, 'failed': which})
         elif 'accuracy' in which:
             rep.violation('C01/accuracy/' + c['stream'], 'a printed coordinate is farther than half a unit of the last decimal from '
